@@ -1,4 +1,5 @@
 import Gv.Proofs.BagRect3
+import Gv.Proofs.BagExt
 /-! No operation changes the kind (alignment / plain sequence set) of a container (C01). -/
 namespace Gv.Proofs.BagAbs
 open Gv Gv.Model Gv.Proofs.BagInv
@@ -170,5 +171,6 @@ theorem isAlign_stepOp (b : Bag) (op : Op) : (stepOp b op).1.isAlign = b.isAlign
             · simp at hr
             · simp only [Option.some.injEq] at hr; subst hr; rfl
   | autoAlpha => rfl
+  | revcomp => exact (reverseComplement_fields b).2.2.1
 
 end Gv.Proofs.BagAbs
